@@ -264,6 +264,7 @@ class Extractor(object):
         self._alloc = 0
         self.locals_alloc = {}
         self._exit_envs = {}
+        self.loop_pre = {}
         self.params = [a.arg for a in func_node.args.posonlyargs + func_node.args.args + func_node.args.kwonlyargs]
         if func_node.args.vararg:
             self.params.append(func_node.args.vararg.arg)
@@ -543,6 +544,11 @@ class Extractor(object):
             cur = E(s.target) if not isinstance(s.target, ast.Name) else env.get(s.target.id, ("undef", s.target.id))
             v = ("binop", OPS.get(type(s.op), "?"), cur, E(s.value))
             if isinstance(s.target, ast.Name):
+                # x |= y on a name bound to an object reachable from a parameter mutates that object in place
+                # (sets, lists, dicts); record it as a store into the aliased object
+                if cur[0] in ("attr", "sub", "elem", "idx") and root_of(cur) is not None and root_of(cur)[0] == "param" \
+                        and isinstance(s.op, (ast.BitOr, ast.BitAnd, ast.Sub, ast.BitXor, ast.Add, ast.Mult)):
+                    self.emit("store", cur, v, guards, loops, s, extra="aug-inplace")
                 env[s.target.id] = v
                 self.emit("bind", ("bound", s.target.id), v, guards, loops, s, extra="aug")
             else:
@@ -602,6 +608,7 @@ class Extractor(object):
                 # a use before the (re)definition inside the body sees the previous iteration's value or the
                 # pre-loop value
                 pre = env.get(n)
+                self.loop_pre[(n, lid)] = pre
                 env_body[n] = ("carried", n, lid) if pre is None else ("phi", (pre, ("carried", n, lid)))
             if isinstance(s, ast.For):
                 self.bind(s.target, ("elem", it, lid), env_body, guards, loops, s)
@@ -713,3 +720,44 @@ def unwrap(t):
 
 def same_local(a, b):
     return a[0] == "local" and b[0] == "local" and a[1:3] == b[1:3]
+
+
+def norm_items(t):
+    """rewrite the value component of an items() element into a subscript:  (k, v) drawn from X.items()  =>  v == X[k]"""
+    def fn(x):
+        if x[0] == "idx" and x[2] == 1 and x[1][0] == "elem":
+            it = x[1][1]
+            base = None
+            if it[0] == "call" and it[1][0] == "attr" and it[1][2] in ("items", "iteritems") and not it[2]:
+                base = it[1][1]
+            elif it[0] == "call" and it[1] == ("global", "six.iteritems") and len(it[2]) == 1:
+                base = it[2][0]
+            if base is not None:
+                return ("sub", base, ("idx", x[1], 0))
+        return None
+    return subst(t, fn)
+
+
+def stale_in_iteration(ex):
+    """[(variable, term)] for phi terms that mix a value assigned earlier in the *same* loop iteration with the value left
+    over from the previous iteration: the variable is (re)assigned on some paths of the iteration only"""
+    out = []
+    seen = set()
+    for ev in ex.events:
+        if ev.kind not in ("store", "call", "return", "raise"):
+            continue
+        for t in (ev.value, ev.target):
+            if t is None:
+                continue
+            for x in walk(t):
+                if x[0] != "phi":
+                    continue
+                carried = [a for a in x[1] if a[0] == "carried"]
+                for c in carried:
+                    pre = ex.loop_pre.get((c[1], c[2]))
+                    pre_alts = set(pre[1]) if pre is not None and pre[0] == "phi" else ({pre} if pre is not None else set())
+                    fresh = [a for a in x[1] if a[0] != "carried" and a not in pre_alts]
+                    if fresh and (c[1], c[2], ev.lineno) not in seen:
+                        seen.add((c[1], c[2], ev.lineno))
+                        out.append((c[1], ev.lineno))
+    return out
